@@ -6,4 +6,9 @@ func init() {
 		Explanation: "A1 lockset",
 		Rules:       []func(*Ctx){ruleA1("A1-guarded", anyClass)},
 	})
+	register(&PropSpec{ID: "C19", Explanation: "x", Rules: []func(*Ctx){ruleA4Dirty}})
+	register(&PropSpec{ID: "C13", Explanation: "x", Rules: []func(*Ctx){ruleA7(nil, 150)}})
+	register(&PropSpec{ID: "C07", Explanation: "x", Rules: []func(*Ctx){ruleA6}})
+	register(&PropSpec{ID: "C06", Explanation: "x", Rules: []func(*Ctx){ruleA4Empty}})
+	register(&PropSpec{ID: "C10", Explanation: "x", Rules: []func(*Ctx){ruleA4Version}})
 }
